@@ -1,18 +1,32 @@
 #!/usr/bin/env python3
-"""mkmut.py <prop> <name> <file> <<< 'old text\n=====\nnew text'  : creates /verif/mutants/<prop>/<name>.patch by
-editing /repo's working tree, diffing, and restoring it."""
-import subprocess, sys, os
+"""mkmut.py <prop> <name> <file> <<< 'old text\n=====\nnew text'  : creates /verif/mutants/<prop>/<name>.patch
+(a -p1 patch against /repo) without touching /repo: the edited copy of the one file lives in a temp dir.
+Several hunks in one file: separate specs with a line '#####'."""
+import os
+import subprocess
+import sys
+import tempfile
+
 prop, name, path = sys.argv[1:4]
-spec = sys.stdin.read()
-old, new = spec.split("\n=====\n")
-old = old.strip("\n"); new = new.rstrip("\n").lstrip("\n")
 full = os.path.join("/repo", path)
 s = open(full).read()
-if s.count(old) != 1:
-    print("ERROR: old text occurs %d times in %s" % (s.count(old), path)); sys.exit(1)
-open(full, "w").write(s.replace(old, new))
-d = subprocess.check_output(["git", "-C", "/repo", "diff"], text=True)
-subprocess.check_call(["git", "-C", "/repo", "checkout", "--", "."])
+for spec in sys.stdin.read().split("\n#####\n"):
+    old, new = spec.split("\n=====\n")
+    old = old.strip("\n")
+    new = new.rstrip("\n").lstrip("\n")
+    if s.count(old) != 1:
+        print("ERROR: old text occurs %d times in %s" % (s.count(old), path))
+        sys.exit(1)
+    s = s.replace(old, new)
+with tempfile.TemporaryDirectory() as tmp:
+    a = os.path.join(tmp, "a", path)
+    b = os.path.join(tmp, "b", path)
+    os.makedirs(os.path.dirname(a))
+    os.makedirs(os.path.dirname(b))
+    open(a, "w").write(open(full).read())
+    open(b, "w").write(s)
+    r = subprocess.run(["diff", "-u", os.path.join("a", path), os.path.join("b", path)], cwd=tmp, stdout=subprocess.PIPE, text=True)
+    d = r.stdout
 os.makedirs("/verif/mutants/%s" % prop, exist_ok=True)
 open("/verif/mutants/%s/%s.patch" % (prop, name), "w").write(d)
-print("wrote /verif/mutants/%s/%s.patch" % (prop, name))
+print("wrote /verif/mutants/%s/%s.patch (%d lines)" % (prop, name, d.count("\n")))
